@@ -1,0 +1,14 @@
+//go:build verif
+
+// Verification accessors (build tag verif only): expose the controllers' real event handlers so
+// that the /verif binder harness can deliver pod / BindRequest events without a manager.
+
+package controllers
+
+import (
+	"sigs.k8s.io/controller-runtime/pkg/handler"
+)
+
+func (r *PodReconciler) VerifEventHandlers() handler.Funcs { return r.eventHandlers() }
+
+func (r *BindRequestReconciler) VerifEventHandlers() handler.Funcs { return r.eventHandlers() }
